@@ -250,7 +250,7 @@ impl<'a> Visitor for V<'a> {
         }
         if cx.op.is_none() {
             // builder / decoded: ports given must read back
-            if let Init::Builder { calls } = &cx.h.init {
+            if let Init::Builder { calls } | Init::BuilderReuse { calls, .. } = &cx.h.init {
                 let mut last: std::collections::HashMap<PortKey, u16> = std::collections::HashMap::new();
                 for c in calls {
                     match c {
@@ -296,7 +296,7 @@ fn port_history(fam: FamId, which: PortKey, port: u16, path: u8) -> History {
         }
         _ => (Init::Decoded { seq: 1, pairs: vec![(which.key().to_vec(), rlp::encode_uint(port as u64))] }, vec![]),
     };
-    History { fam, keys, init, ops, fault_at: None }
+    History { fam, keys, init, ops, fault_at: None, alt_keys: vec![] }
 }
 
 impl Property for C14 {
@@ -371,7 +371,7 @@ impl Property for C14 {
                         pairs.push((k.to_vec(), v.clone()));
                     }
                 }
-                Case::Hist(History { fam, keys: history::exhaustive_keys(fam), init: Init::Decoded { seq: 3, pairs }, ops: vec![Op::Redecode], fault_at: None })
+                Case::Hist(History { fam, keys: history::exhaustive_keys(fam), init: Init::Decoded { seq: 3, pairs }, ops: vec![Op::Redecode], fault_at: None, alt_keys: vec![] })
             })
         });
         Box::new(sweep.chain(presence))
